@@ -120,10 +120,31 @@ static void hostile_pbf(Src& s) {
     if (placed) vp::nontrivial(vp::hash_str(model::show(data[0])) ^ s.used().size());
 }
 
+// o5m files whose varints and strings are well-formed but in which one object is inconsistent in one or two places (reference section
+// length, early end of the body at a field boundary, dataset length, string reference outside the table)
+static void hostile_o5m(Src& s) {
+    size_t placed = 0;
+    uint64_t h = 0;
+    for (size_t round = 0; round < 40; ++round) {
+        filegen::Made m = filegen::small_file(s, 1, 6, false, 1, nullptr, true);
+        if (vp::want_desc()) vp::describe(m.what);
+        check(m.bytes, m.format.c_str(), m.what);
+        const bool fired = m.what_extra.find("inconsistent in object") != std::string::npos;
+        vp::count(fired ? "hostile_o5m_inconsistency_placed" : "hostile_o5m_place_not_reached");
+        if (fired) {
+            ++placed;
+            h ^= vp::hash_str(m.bytes);
+        }
+    }
+    vp::count("reader_runs", 40);
+    if (placed) vp::nontrivial(h);
+}
+
 static void prop(Src& s) {
-    if (s.chance(1, 4)) {
-        hostile_pbf(s);
-        return;
+    switch (s.weighted({5, 2, 1})) {
+        case 1: hostile_pbf(s); return;
+        case 2: hostile_o5m(s); return;
+        default: break;
     }
     std::string bytes, format, what;
     if (!fixtures().empty() && s.chance(1, 6)) {
